@@ -55,15 +55,17 @@ type c14type struct {
 	name    string
 	fields  []c14fs
 	enc     func(f []c14field) ([]byte, error)
-	dec     func(b []byte) ([]c14field, error)
-	fixOffs []int // positions of 4-byte offsets in the fixed part
-	tableAt int   // position of an offset table of a list of variable-size items (-1 = none)
-	small   bool  // very large values: only a handful of cases
+	dec2    func(bs ...[]byte) ([]c14field, error) // decodes the byte strings one after the other into one object
+	fixOffs []int                                  // positions of 4-byte offsets in the fixed part
+	tableAt int                                    // position of an offset table of a list of variable-size items (-1 = none)
+	small   bool                                   // very large values: only a handful of cases
 }
 
 var c14types []*c14type
 
 func c14reg(t *c14type) { c14types = append(c14types, t) }
+
+func (t *c14type) dec(b []byte) ([]c14field, error) { return t.dec2(b) }
 
 func c14find(name string) *c14type {
 	for _, t := range c14types {
@@ -94,9 +96,12 @@ func init() {
 	ping.enc = func(f []c14field) ([]byte, error) {
 		return (&portalwire.Ping{EnrSeq: f[0].n, PayloadType: uint16(f[1].n), Payload: f[2].b}).MarshalSSZ()
 	}
-	ping.dec = func(b []byte) ([]c14field, error) {
+	ping.dec2 = func(bs ...[]byte) ([]c14field, error) {
 		var v portalwire.Ping
-		err := v.UnmarshalSSZ(b)
+		var err error
+		for _, b := range bs { // decoded one after the other into the SAME object
+			err = v.UnmarshalSSZ(b)
+		}
 		return []c14field{{n: v.EnrSeq}, {n: uint64(v.PayloadType)}, {b: v.Payload}}, err
 	}
 	c14reg(ping)
@@ -104,9 +109,12 @@ func init() {
 	pong.enc = func(f []c14field) ([]byte, error) {
 		return (&portalwire.Pong{EnrSeq: f[0].n, PayloadType: uint16(f[1].n), Payload: f[2].b}).MarshalSSZ()
 	}
-	pong.dec = func(b []byte) ([]c14field, error) {
+	pong.dec2 = func(bs ...[]byte) ([]c14field, error) {
 		var v portalwire.Pong
-		err := v.UnmarshalSSZ(b)
+		var err error
+		for _, b := range bs { // decoded one after the other into the SAME object
+			err = v.UnmarshalSSZ(b)
+		}
 		return []c14field{{n: v.EnrSeq}, {n: uint64(v.PayloadType)}, {b: v.Payload}}, err
 	}
 	c14reg(pong)
@@ -119,9 +127,12 @@ func init() {
 			}
 			return (&portalwire.FindNodes{Distances: d}).MarshalSSZ()
 		},
-		dec: func(b []byte) ([]c14field, error) {
+		dec2: func(bs ...[]byte) ([]c14field, error) {
 			var v portalwire.FindNodes
-			err := v.UnmarshalSSZ(b)
+			var err error
+			for _, b := range bs { // decoded one after the other into the SAME object
+				err = v.UnmarshalSSZ(b)
+			}
 			l := make([][]byte, len(v.Distances))
 			for i := range v.Distances {
 				l[i] = cp(v.Distances[i][:])
@@ -131,17 +142,23 @@ func init() {
 	c14reg(&c14type{name: "FindContent", tableAt: -1, fixOffs: []int{0},
 		fields: []c14fs{{name: "ContentKey", kind: 'B', max: 2048}},
 		enc:    func(f []c14field) ([]byte, error) { return (&portalwire.FindContent{ContentKey: f[0].b}).MarshalSSZ() },
-		dec: func(b []byte) ([]c14field, error) {
+		dec2: func(bs ...[]byte) ([]c14field, error) {
 			var v portalwire.FindContent
-			err := v.UnmarshalSSZ(b)
+			var err error
+			for _, b := range bs { // decoded one after the other into the SAME object
+				err = v.UnmarshalSSZ(b)
+			}
 			return []c14field{{b: v.ContentKey}}, err
 		}})
 	c14reg(&c14type{name: "Offer", tableAt: 4, fixOffs: []int{0},
 		fields: []c14fs{{name: "ContentKeys", kind: 'L', max: 64, itemMax: 2048}},
 		enc:    func(f []c14field) ([]byte, error) { return (&portalwire.Offer{ContentKeys: f[0].l}).MarshalSSZ() },
-		dec: func(b []byte) ([]c14field, error) {
+		dec2: func(bs ...[]byte) ([]c14field, error) {
 			var v portalwire.Offer
-			err := v.UnmarshalSSZ(b)
+			var err error
+			for _, b := range bs { // decoded one after the other into the SAME object
+				err = v.UnmarshalSSZ(b)
+			}
 			return []c14field{{l: v.ContentKeys}}, err
 		}})
 	c14reg(&c14type{name: "Nodes", tableAt: 5, fixOffs: []int{1},
@@ -149,33 +166,45 @@ func init() {
 		enc: func(f []c14field) ([]byte, error) {
 			return (&portalwire.Nodes{Total: uint8(f[0].n), Enrs: f[1].l}).MarshalSSZ()
 		},
-		dec: func(b []byte) ([]c14field, error) {
+		dec2: func(bs ...[]byte) ([]c14field, error) {
 			var v portalwire.Nodes
-			err := v.UnmarshalSSZ(b)
+			var err error
+			for _, b := range bs { // decoded one after the other into the SAME object
+				err = v.UnmarshalSSZ(b)
+			}
 			return []c14field{{n: uint64(v.Total)}, {l: v.Enrs}}, err
 		}})
 	c14reg(&c14type{name: "ConnectionId", tableAt: -1,
 		fields: []c14fs{{name: "Id", kind: 'B', exact: 2}},
 		enc:    func(f []c14field) ([]byte, error) { return (&portalwire.ConnectionId{Id: f[0].b}).MarshalSSZ() },
-		dec: func(b []byte) ([]c14field, error) {
+		dec2: func(bs ...[]byte) ([]c14field, error) {
 			var v portalwire.ConnectionId
-			err := v.UnmarshalSSZ(b)
+			var err error
+			for _, b := range bs { // decoded one after the other into the SAME object
+				err = v.UnmarshalSSZ(b)
+			}
 			return []c14field{{b: v.Id}}, err
 		}})
 	c14reg(&c14type{name: "Content", tableAt: -1,
 		fields: []c14fs{{name: "Content", kind: 'B', max: 2048}},
 		enc:    func(f []c14field) ([]byte, error) { return (&portalwire.Content{Content: f[0].b}).MarshalSSZ() },
-		dec: func(b []byte) ([]c14field, error) {
+		dec2: func(bs ...[]byte) ([]c14field, error) {
 			var v portalwire.Content
-			err := v.UnmarshalSSZ(b)
+			var err error
+			for _, b := range bs { // decoded one after the other into the SAME object
+				err = v.UnmarshalSSZ(b)
+			}
 			return []c14field{{b: v.Content}}, err
 		}})
 	c14reg(&c14type{name: "Enrs", tableAt: 0,
 		fields: []c14fs{{name: "Enrs", kind: 'L', max: 32, itemMax: 2048}},
 		enc:    func(f []c14field) ([]byte, error) { return (&portalwire.Enrs{Enrs: f[0].l}).MarshalSSZ() },
-		dec: func(b []byte) ([]c14field, error) {
+		dec2: func(bs ...[]byte) ([]c14field, error) {
 			var v portalwire.Enrs
-			err := v.UnmarshalSSZ(b)
+			var err error
+			for _, b := range bs { // decoded one after the other into the SAME object
+				err = v.UnmarshalSSZ(b)
+			}
 			return []c14field{{l: v.Enrs}}, err
 		}})
 	c14reg(&c14type{name: "Accept", tableAt: -1, fixOffs: []int{2},
@@ -183,9 +212,12 @@ func init() {
 		enc: func(f []c14field) ([]byte, error) {
 			return (&portalwire.Accept{ConnectionId: f[0].b, ContentKeys: f[1].b}).MarshalSSZ()
 		},
-		dec: func(b []byte) ([]c14field, error) {
+		dec2: func(bs ...[]byte) ([]c14field, error) {
 			var v portalwire.Accept
-			err := v.UnmarshalSSZ(b)
+			var err error
+			for _, b := range bs { // decoded one after the other into the SAME object
+				err = v.UnmarshalSSZ(b)
+			}
 			return []c14field{{b: v.ConnectionId}, {b: v.ContentKeys}}, err
 		}})
 	c14reg(&c14type{name: "AcceptV1", tableAt: -1, fixOffs: []int{2},
@@ -193,9 +225,12 @@ func init() {
 		enc: func(f []c14field) ([]byte, error) {
 			return (&portalwire.AcceptV1{ConnectionId: f[0].b, ContentKeys: f[1].b}).MarshalSSZ()
 		},
-		dec: func(b []byte) ([]c14field, error) {
+		dec2: func(bs ...[]byte) ([]c14field, error) {
 			var v portalwire.AcceptV1
-			err := v.UnmarshalSSZ(b)
+			var err error
+			for _, b := range bs { // decoded one after the other into the SAME object
+				err = v.UnmarshalSSZ(b)
+			}
 			return []c14field{{b: v.ConnectionId}, {b: v.ContentKeys}}, err
 		}})
 	// ---- ping_ext (ztyp)
@@ -218,9 +253,12 @@ func init() {
 		enc: func(f []c14field) ([]byte, error) {
 			return pingext.ClientInfoAndCapabilitiesPayload{ClientInfo: pingext.ClientInfoBytes(f[0].b), DataRadius: root32(f[1].b), Capabilities: caps(f[2].nl)}.MarshalSSZ()
 		},
-		dec: func(b []byte) ([]c14field, error) {
+		dec2: func(bs ...[]byte) ([]c14field, error) {
 			var v pingext.ClientInfoAndCapabilitiesPayload
-			err := v.UnmarshalSSZ(b)
+			var err error
+			for _, b := range bs { // decoded one after the other into the SAME object
+				err = v.UnmarshalSSZ(b)
+			}
 			return []c14field{{b: []byte(v.ClientInfo)}, {b: cp(v.DataRadius[:])}, {nl: uncaps(v.Capabilities)}}, err
 		}})
 	c14reg(&c14type{name: "BasicRadius", tableAt: -1,
@@ -228,9 +266,12 @@ func init() {
 		enc: func(f []c14field) ([]byte, error) {
 			return pingext.BasicRadiusPayload{DataRadius: root32(f[0].b)}.MarshalSSZ()
 		},
-		dec: func(b []byte) ([]c14field, error) {
+		dec2: func(bs ...[]byte) ([]c14field, error) {
 			var v pingext.BasicRadiusPayload
-			err := v.UnmarshalSSZ(b)
+			var err error
+			for _, b := range bs { // decoded one after the other into the SAME object
+				err = v.UnmarshalSSZ(b)
+			}
 			return []c14field{{b: cp(v.DataRadius[:])}}, err
 		}})
 	c14reg(&c14type{name: "HistoryRadius", tableAt: -1,
@@ -238,9 +279,12 @@ func init() {
 		enc: func(f []c14field) ([]byte, error) {
 			return pingext.HistoryRadiusPayload{DataRadius: root32(f[0].b), EphemeralHeaderCount: view.Uint16View(f[1].n)}.MarshalSSZ()
 		},
-		dec: func(b []byte) ([]c14field, error) {
+		dec2: func(bs ...[]byte) ([]c14field, error) {
 			var v pingext.HistoryRadiusPayload
-			err := v.UnmarshalSSZ(b)
+			var err error
+			for _, b := range bs { // decoded one after the other into the SAME object
+				err = v.UnmarshalSSZ(b)
+			}
 			return []c14field{{b: cp(v.DataRadius[:])}, {n: uint64(v.EphemeralHeaderCount)}}, err
 		}})
 	c14reg(&c14type{name: "ErrorPayload", tableAt: -1, fixOffs: []int{2},
@@ -248,17 +292,23 @@ func init() {
 		enc: func(f []c14field) ([]byte, error) {
 			return pingext.ErrorPayload{ErrorCode: view.Uint16View(f[0].n), Message: pingext.ErrMessage(f[1].b)}.MarshalSSZ()
 		},
-		dec: func(b []byte) ([]c14field, error) {
+		dec2: func(bs ...[]byte) ([]c14field, error) {
 			var v pingext.ErrorPayload
-			err := v.UnmarshalSSZ(b)
+			var err error
+			for _, b := range bs { // decoded one after the other into the SAME object
+				err = v.UnmarshalSSZ(b)
+			}
 			return []c14field{{n: uint64(v.ErrorCode)}, {b: []byte(v.Message)}}, err
 		}})
 	c14reg(&c14type{name: "Capabilities", tableAt: -1,
 		fields: []c14fs{{name: "Capabilities", kind: 'U', bits: 16, max: 400}},
 		enc:    func(f []c14field) ([]byte, error) { return caps(f[0].nl).MarshalSSZ() },
-		dec: func(b []byte) ([]c14field, error) {
+		dec2: func(bs ...[]byte) ([]c14field, error) {
 			var v pingext.CapabilitiesPayload
-			err := v.UnmarshalSSZ(b)
+			var err error
+			for _, b := range bs { // decoded one after the other into the SAME object
+				err = v.UnmarshalSSZ(b)
+			}
 			return []c14field{{nl: uncaps(v)}}, err
 		}})
 	c14initMore()
@@ -791,6 +841,84 @@ func c14overMiddle(c *Ctx, t *c14type) {
 	}
 }
 
+// c14hold: encode value A and KEEP the returned slice, encode other values (same type, same sizes first, then other
+// types), then report A's bytes.  An encoder must hand out bytes that later encodes do not touch.
+func c14hold(c *Ctx, t *c14type, a []c14field) {
+	encA, obs := c14enc(t, a)
+	if !strings.HasPrefix(obs, "ok") {
+		return
+	}
+	r := c.Rng
+	// same shape, different content: the most likely way to be overwritten in place
+	b := make([]c14field, len(a))
+	for i := range a {
+		b[i] = c14field{n: a[i].n ^ 0x5a5a, b: c14flip(a[i].b), l: make([][]byte, len(a[i].l)), nl: make([]uint64, len(a[i].nl))}
+		for j := range a[i].l {
+			b[i].l[j] = c14flip(a[i].l[j])
+		}
+		for j := range a[i].nl {
+			b[i].nl[j] = a[i].nl[j] ^ 0x5a
+		}
+		if s := t.fields[i]; s.kind == 'N' && s.bits < 64 {
+			b[i].n &= (uint64(1) << uint(s.bits)) - 1
+		}
+		if t.fields[i].nibble {
+			for j := range b[i].b {
+				b[i].b[j] &= 0x0f
+			}
+		}
+	}
+	var keep [][]byte
+	for k := 0; k < 4; k++ {
+		e, _ := c14enc(t, b)
+		keep = append(keep, e)
+	}
+	for k := 0; k < 2; k++ {
+		if f, ok := c14gen(c, t, -1); ok {
+			e, _ := c14enc(t, f)
+			keep = append(keep, e)
+		}
+	}
+	for k := 0; k < 2; k++ { // other types (encoders may share scratch state)
+		o := c14types[r.Intn(len(c14types))]
+		if o.small {
+			continue
+		}
+		if f, ok := c14gen(c, o, -1); ok {
+			e, _ := c14enc(o, f)
+			keep = append(keep, e)
+		}
+	}
+	_ = keep
+	c.Count("type_" + t.name + "_hold")
+	c.Emit("hold %s %s | ok %s", t.name, c14dump(t, a), hx(encA))
+}
+
+func c14flip(b []byte) []byte {
+	o := make([]byte, len(b))
+	for i := range b {
+		o[i] = ^b[i]
+	}
+	return o
+}
+
+// c14redec: decode x into an object, then decode y into the SAME object and report what it holds.
+// A decoder's result must be a function of the bytes it is given, not of what the destination held before.
+func c14redec(c *Ctx, t *c14type, x, y []byte) {
+	var f []c14field
+	var err error
+	obs := ""
+	if p, msg := guard(func() { f, err = t.dec2(cp(x), cp(y)) }); p {
+		obs = "panic " + msg
+	} else if err != nil {
+		obs = "err 1"
+	} else {
+		obs = "ok " + c14dump(t, f)
+	}
+	c.Count("type_" + t.name + "_redec")
+	c.Emit("redec %s %s %s | %s", t.name, hx(x), hx(y), obs)
+}
+
 // fixed-part prefix of an encoding of the "empty" value, used to aim the four-byte strings at the list field
 func c14emptyPrefix(t *c14type) []byte {
 	f := make([]c14field, len(t.fields))
@@ -836,6 +964,12 @@ func c14replay(c *Ctx, lines []string) {
 			c14value(c, t, c14parse(t, f[2]))
 		case "dec", "reenc":
 			c14bytes(c, t, unhx(f[2]))
+		case "hold":
+			c14hold(c, t, c14parse(t, f[2]))
+		case "redec":
+			if len(f) >= 4 {
+				c14redec(c, t, unhx(f[2]), unhx(f[3]))
+			}
 		}
 	}
 }
@@ -930,6 +1064,38 @@ func runC14(c *Ctx) {
 					pool = append(pool, enc)
 				}
 			}
+		}
+		// ---- encodings held across later encodes; decoding twice into one object
+		nh, nr := 5, 8
+		if t.small {
+			nh, nr = 1, 1
+		} else if nv < nv0 {
+			nh, nr = 2, 3
+		}
+		if c.Tier == "thorough" {
+			nh, nr = 4*nh, 4*nr
+		}
+		for i := 0; i < nh; i++ {
+			if f, ok := c14gen(c, t, -1); ok {
+				c14hold(c, t, f)
+			}
+		}
+		for i := 0; i < nr && len(pool) > 0; i++ {
+			x, y := pool[r.Intn(len(pool))], pool[r.Intn(len(pool))]
+			switch i {
+			case 0: // the same bytes twice: exposes append-to-existing
+				y = x
+			case 1: // the longest encoding, then the shortest: exposes kept lengths / kept slots
+				for _, e := range pool {
+					if len(e) > len(x) {
+						x = e
+					}
+					if len(e) < len(y) {
+						y = e
+					}
+				}
+			}
+			c14redec(c, t, x, y)
 		}
 		// ---- byte strings
 		prefix := c14emptyPrefix(t)
